@@ -55,6 +55,10 @@ def run(ck):
     import c12
     with ck.under("C12-", "C08-C12"):
         c12.rule_I(ck, lib, sk)
+    # what lies behind a failed parse is discarded by a search for the raw newline byte: none of its bytes - inside or outside
+    # a payload of the faulty message - is read as a quote, separator or length field by anything but the parser (rule C06-R)
+    import c06
+    c06.rule_R(ck, lib, "C08-C06R")
 
 
 def value_ctor(sk, x):
